@@ -221,7 +221,7 @@ class Lit:
             if isinstance(n.func, ast.Name) and n.func.id in self.PURE and not n.keywords:
                 return self.PURE[n.func.id](*[self.ev(a) for a in n.args])
             if isinstance(n.func, ast.Attribute) and isinstance(n.func.value, ast.Name) and n.func.value.id == 're' and n.func.value.id not in self.env \
-               and n.func.attr in ('split', 'sub', 'match', 'fullmatch', 'findall', 'search') and not n.keywords:
+               and n.func.attr in ('split', 'sub', 'match', 'fullmatch', 'findall', 'search', 'compile', 'escape') and not n.keywords:
                 import re as _re
                 args = [self.ev(a) for a in n.args]
                 if all(isinstance(a, (str, int)) for a in args):
@@ -273,6 +273,7 @@ class Lit:
                     import re as _re
                     if (getattr(base, '_sa_model', False) and callable(getattr(base, n.func.attr, None))) or \
                        (isinstance(base, _re.Match) and n.func.attr in ('group', 'groups', 'start', 'end', 'span', 'groupdict')) or \
+                       (isinstance(base, _re.Pattern) and n.func.attr in ('search', 'match', 'fullmatch', 'findall', 'sub', 'split', 'finditer')) or \
                        (isinstance(base, tuple) and hasattr(base, '_fields') and n.func.attr in ('_replace', '_asdict')):
                         return getattr(base, n.func.attr)(*[self.ev(a) for a in n.args], **{k.arg: self.ev(k.value) for k in n.keywords})
             return self._opaque(n)
@@ -446,6 +447,12 @@ class ModuleFold:
                     self.env.pop(tg.id, None)
                 else:
                     raise NotLiteral('del target')
+        elif isinstance(st, (ast.Global, ast.Nonlocal)):
+            mg = getattr(self.opaque, 'modglobals', None)
+            if mg is None or isinstance(st, ast.Nonlocal):
+                raise NotLiteral('statement ' + type(st).__name__)
+            self.global_names = getattr(self, 'global_names', set()) | set(st.names)
+            mg.setdefault(self.modname, {})
         elif isinstance(st, ast.Break):
             raise _Break()
         elif isinstance(st, ast.Continue):
@@ -471,6 +478,10 @@ class ModuleFold:
 
     def store(self, tg, v):
         if isinstance(tg, ast.Name):
+            if tg.id in getattr(self, 'global_names', ()):
+                self.opaque.modglobals[self.modname][tg.id] = v
+                self.opaque.override_names.add(tg.id)
+                return
             self.env[tg.id] = v
         elif isinstance(tg, ast.Subscript):
             base = self.lit().ev(tg.value)
